@@ -113,7 +113,8 @@ Definition check_message (g : ccfg) (now : Z) (c : cli) (f : list Z) : cli * boo
 Definition ctmo_u (now : Z) (c : cli) : bool := negb (cumt c =? 0) && (cumt c <? now).     (* true: close *)
 Definition ctmo_t3 (g : ccfg) (now : Z) (c : cli) : cli * bool * list cobs :=              (* bool: keep going *)
   if cnt3 c <? now then
-    if 2 <? couttest c then (c, false, [])
+    if negb (cumt c =? 0) then (c <| cnt3 := now + cc_t3 g * 1000 |>, true, [])   (* a TESTFR act is unanswered: its t1 decides *)
+    else if 2 <? couttest c then (c, false, [])
     else (c <| cumt := now + cc_t1 g * 1000 |> <| couttest := couttest c + 1 |> <| cnt3 := now + cc_t3 g * 1000 |>,
           true, cwr c (enc_u 67))
   else (c, true, []).
